@@ -366,6 +366,30 @@ pub fn main(args: &[String]) -> i32 {
                     };
                     format!("{:?}|{:?}", d.calculate(map), Performance::new(map).difficulty(d.clone()).accuracy(97.0).calculate())
                 });
+                // an EXPLICIT value on the Difficulty wins over the DifficultyAdjust value of the same attribute (both with_mods
+                // settings): DifficultyAdjust x + explicit y = explicit y alone
+                for wm in [false, true] {
+                    extra += 1;
+                    let y = (10.0 - x as f32).clamp(0.0, 10.0) * 0.5 + 1.5;
+                    let set = |d: Difficulty| match field {
+                        "ar" => d.ar(y, wm),
+                        "cs" => d.cs(y, wm),
+                        "hp" => d.hp(y, wm),
+                        _ => d.od(y, wm),
+                    };
+                    let both = guarded(|| {
+                        let d = set(Difficulty::new().mods(lm.clone()));
+                        format!("{:?}|{:?}", d.calculate(map), map.attributes().difficulty(&d).build())
+                    });
+                    let alone = guarded(|| {
+                        let d = set(Difficulty::new().mods(bits));
+                        format!("{:?}|{:?}", d.calculate(map), map.attributes().difficulty(&d).build())
+                    });
+                    if both != alone {
+                        mism.push(json!({"what": "explicit_value_wins_over_difficulty_adjust", "mode": mode, "field": field, "value": x, "with": with, "osu_text": text,
+                            "expected": format!("{alone:?}").chars().take(500).collect::<String>(), "observed": format!("{both:?}").chars().take(500).collect::<String>()}));
+                    }
+                }
                 if a != b {
                     mism.push(json!({"what": "difficulty_adjust_vs_override", "mode": mode, "field": field, "value": x, "with": with, "osu_text": text,
                         "expected": format!("{b:?}").chars().take(500).collect::<String>(), "observed": format!("{a:?}").chars().take(500).collect::<String>()}));
